@@ -132,4 +132,32 @@ example : ¬ Confined ["t", "x"] wEx (AMap.insert wEx ["out"] (dirNode 0o700)) :
   · revert e; decide
   · revert e; decide
 
+/-! ### the code before the fix violates the property (concrete witness, evaluated by the kernel) -/
+
+/-- `/out` (mode 0711), `/t`, empty target `/t/x` -/
+def wWit : World :=
+  AMap.insert (AMap.insert (AMap.insert FS.empty ["out"] (dirNode 0o711)) ["t"] (dirNode 0o755)) ["t", "x"] (dirNode 0o755)
+
+/-- `root/` (0755), `root/a/` (0700), then `root/a` again as a symlink to `/out` -/
+def archWit : List Entry := [
+  { name := ["root"], typ := .dir, mode := 0o755, mtime := 1 },
+  { name := ["root", "a"], typ := .dir, mode := 0o700, mtime := 2 },
+  { name := ["root", "a"], typ := .symlink, linkname := ["", "out"], mode := 0o777, mtime := 3 } ]
+
+/-- **Counterexample (unrepaired code, `fixed = false`).** The deferred `chmod 0700` of `root/a` follows the
+symlink that replaced the directory: `/out`, outside the target `/t/x`, ends with mode 0700. -/
+theorem c38_unfixed_counterexample :
+    (find (extract false "tmp" wWit ["t", "x"] archWit).1 ["out"]).map (·.mode) = some 0o700 ∧
+    ¬ Confined ["t", "x"] wWit (extract false "tmp" wWit ["t", "x"] archWit).1 := by
+  refine ⟨by decide, fun h => ?_⟩
+  rcases h ["out"] with e | e | ⟨e, _⟩
+  · revert e; decide
+  · revert e; decide
+  · revert e; decide
+
+/-- the repaired code on the same witness: the extraction succeeds, `/t/x/a` is the symlink, `/out` is untouched -/
+example : (extract true "tmp" wWit ["t", "x"] archWit).2 = false ∧
+    isLink (find (extract true "tmp" wWit ["t", "x"] archWit).1 ["t", "x", "a"]) = true ∧
+    find (extract true "tmp" wWit ["t", "x"] archWit).1 ["out"] = find wWit ["out"] := by decide
+
 end C38
